@@ -17,7 +17,7 @@ RC0=$(cat /tmp/seed-$$-rc0); RC1=$(cat /tmp/seed-$$-rc1)
 echo "demo unchanged rc=$RC0, changed rc=$RC1, tests: $TESTS"
 RESULTS=""
 for C in $PROP "$@"; do
-  ( cd /verif && SP2T_REPO=$WT ./check $C > /tmp/seed-$$-check-$C.txt 2>&1; echo $? > /tmp/seed-$$-crc-$C )
+  ( cd ${VROOT:-/verif} && SP2T_REPO=$WT ./check $C > /tmp/seed-$$-check-$C.txt 2>&1; echo $? > /tmp/seed-$$-crc-$C )
   CRC=$(cat /tmp/seed-$$-crc-$C)
   echo "check $C rc=$CRC: $(grep -c '^VIOLATION' /tmp/seed-$$-check-$C.txt) VIOLATION lines; $(grep -m1 'what:' /tmp/seed-$$-check-$C.txt | cut -c1-260)"
   RESULTS="$RESULTS $C:rc=$CRC"
